@@ -46,7 +46,7 @@ def gen_case(rng):
         df['Y'] = np.round(np.exp((y - y.mean()) / (y.std() + 1e-9) * 1.3), 4)     # heavy right tail
         qb = qb + '+skewed'
     return {'df': df, 'meta': meta, 'bound': bound, 'bkind': b, 'miss_model': use_miss_model,
-            'alpha': rng.choice([0.05, 0.1, 0.2]), 'qbound': qbound, 'qkind': qb}
+            'alpha': rng.choice([0.05, 0.1, 0.2]), 'qbound': qbound, 'qkind': qb, 'refit': rng.random() < 0.5}
 
 
 def fit(case):
@@ -58,6 +58,12 @@ def fit(case):
         tm.missing_model('A + ' + meta['rhs'], print_results=False)
     tm.outcome_model('A + ' + meta['rhs'], bound=case.get('qbound', False), print_results=False)
     tm.fit()
+    if case.get('refit'):
+        # the targeting step must be repeatable: a second fit() on the same object solves the same equations
+        first = float(tm.risk_difference if meta['outcome'] == 'binary' else tm.average_treatment_effect)
+        g_before = np.array(tm.g1W, dtype=float)
+        tm.fit()
+        tm._verif_refit_ = (first, g_before)
     return tm
 
 
@@ -66,7 +72,7 @@ def check_case(ctx, fails, case, tr, small_exprs, small_refs):
     n = len(df)
     binary = meta['outcome'] == 'binary'
     payload = {'data': {c: [None if (isinstance(v, float) and v != v) else v for v in df[c].tolist()] for c in df.columns}, 'meta': meta, 'bound': case['bound'], 'miss_model': case['miss_model'],
-               'alpha': case['alpha'], 'bkind': case['bkind'], 'qbound': case.get('qbound', False), 'qkind': case.get('qkind', 'none')}
+               'alpha': case['alpha'], 'bkind': case['bkind'], 'qbound': case.get('qbound', False), 'qkind': case.get('qkind', 'none'), 'refit': case.get('refit', False)}
     tag = 'TMLE'
     try:
         tm = fit(case)
@@ -76,6 +82,15 @@ def check_case(ctx, fails, case, tr, small_exprs, small_refs):
         return
     pr = tm._verif_probe_
     ctx.programs += 1
+    if hasattr(tm, '_verif_refit_'):
+        ctx.count('refit:yes')
+        first, g_before = tm._verif_refit_
+        now = float(tm.risk_difference if binary else tm.average_treatment_effect)
+        if abs(now - first) > 1e-9 * max(1, abs(first)):
+            fails.append((n, 'TMLE.refit-changes-estimate', 'a second fit() on the same object moved the estimate from %r to %r' % (first, now), payload))
+        if np.max(np.abs(np.asarray(tm.g1W, dtype=float) - g_before)) > 1e-12:
+            fails.append((n, 'TMLE.fit-overwrites-g', 'fit() changed the stored treatment probabilities g1W (max change %g)'
+                          % float(np.max(np.abs(np.asarray(tm.g1W, dtype=float) - g_before))), payload))
     y = np.asarray(tm.df['Y'], dtype=float)           # unit scale for continuous outcomes
     a = np.asarray(tm.df['A'], dtype=float)
     delta, Qs, Q1, Q0, H1, H0 = pr['delta'], pr['Qstar'], pr['Qstar1'], pr['Qstar0'], pr['H1W'], pr['H0W']
@@ -217,5 +232,5 @@ def replay(ctx, payload):
     fails = []
     df = pd.DataFrame(payload['data'])
     run_cases(ctx, fails, [{'df': df, 'meta': payload['meta'], 'bound': payload['bound'], 'bkind': payload.get('bkind', '?'),
-                            'miss_model': payload['miss_model'], 'alpha': payload['alpha'], 'qbound': payload.get('qbound', False), 'qkind': payload.get('qkind', 'none')}])
+                            'miss_model': payload['miss_model'], 'alpha': payload['alpha'], 'qbound': payload.get('qbound', False), 'qkind': payload.get('qkind', 'none'), 'refit': payload.get('refit', False)}])
     report(ctx, fails)
